@@ -262,6 +262,14 @@ pub fn run(ctx: &mut Ctx) {
                                     recompute_crc(&orig, bo, 252, &mut patches);
                                     alts.push(Alt { patches, must_fail: false, family: "crcfix-location" });
                                 }
+                                {
+                                    // a length byte beyond the 213-byte field, CRC fixed up: the pack info no longer parses
+                                    // (a format error of the p-string read — never a panic), so the manifest does not open
+                                    let newlen = 214 + crng.below(42) as usize;
+                                    let mut patches = vec![(bo + 38, (loclen as u8) ^ (newlen as u8))];
+                                    recompute_crc(&orig, bo, 252, &mut patches);
+                                    alts.push(Alt { patches, must_fail: false, family: "crcfix-location-overlong" });
+                                }
                                 if loclen > 0 {
                                     let i = crng.below(loclen as u64) as usize;
                                     let old = orig[bo + 39 + i];
